@@ -14,6 +14,7 @@ import (
 	"strings"
 	"time"
 
+	"golang.org/x/tools/go/packages"
 	"golang.org/x/tools/go/ssa"
 )
 
@@ -86,6 +87,7 @@ type lbEngine struct {
 	tokLen      bool                        // C06/R3: track Token.Kind / Token.AsString stores of the token reader; <param> spans '@' + its name
 	shallow     bool                        // calls to lexer methods only move the cursor forward (not followed)
 	shallowLeaf bool                        // ... except loop-free leaf helpers (skip, skipN, peek*), which are still inlined
+	astScope    bool                        // C04/R3: the consumer functions of package ast (read-only by C18/R7: loads of one field path are one value)
 	rootPre     []string
 	owner       map[atomID]ssa.Value
 	live        map[*ssa.Function]map[*ssa.BasicBlock]map[ssa.Value]bool
@@ -120,44 +122,52 @@ func (w *World) newLexBounds() *lbEngine {
 	e.N = e.at.get("N", "len(Buffer)", false)
 	e.at.prio[e.P], e.at.prio[e.N] = -1, -1
 	for _, pkg := range []*types.Package{w.Mem.Types, w.Tok.Types, w.Char.Types} {
-		p := w.Pkgs[pkg.Path()]
-		for _, f := range p.Syntax {
-			if fname := w.Fset.Position(f.Pos()).Filename; !(strings.HasSuffix(fname, "lexer.go") || strings.HasSuffix(fname, "quote.go") || pkg == w.Char.Types) {
-				continue
-			}
-			for _, d := range f.Decls {
-				fd, ok := d.(*ast.FuncDecl)
-				if !ok || fd.Body == nil {
-					continue
-				}
-				counts := map[string]int{}
-				ast.Inspect(fd.Body, func(n ast.Node) bool {
-					var pos token.Pos
-					switch x := n.(type) {
-					case *ast.CallExpr:
-						pos = x.Lparen
-					case *ast.IndexExpr:
-						pos = x.Lbrack
-					case *ast.SliceExpr:
-						pos = x.Lbrack
-					default:
-						return true
-					}
-					var buf bytes.Buffer
-					printer.Fprint(&buf, w.Fset, n)
-					s := strings.Join(strings.Fields(buf.String()), " ")
-					if len(s) > 90 {
-						s = s[:87] + "..."
-					}
-					counts[s]++
-					e.text[pos] = s
-					e.textSeq[pos] = counts[s]
-					return true
-				})
-			}
-		}
+		pkg := pkg
+		e.indexText(w.Pkgs[pkg.Path()], func(fname string) bool {
+			return strings.HasSuffix(fname, "lexer.go") || strings.HasSuffix(fname, "quote.go") || pkg == w.Char.Types
+		})
 	}
 	return e
+}
+
+// indexText: the source text of the call/index/slice expressions of the accepted files, for naming obligations.
+func (e *lbEngine) indexText(p *packages.Package, accept func(fname string) bool) {
+	w := e.w
+	for _, f := range p.Syntax {
+		if !accept(w.Fset.Position(f.Pos()).Filename) {
+			continue
+		}
+		for _, d := range f.Decls {
+			fd, ok := d.(*ast.FuncDecl)
+			if !ok || fd.Body == nil {
+				continue
+			}
+			counts := map[string]int{}
+			ast.Inspect(fd.Body, func(n ast.Node) bool {
+				var pos token.Pos
+				switch x := n.(type) {
+				case *ast.CallExpr:
+					pos = x.Lparen
+				case *ast.IndexExpr:
+					pos = x.Lbrack
+				case *ast.SliceExpr:
+					pos = x.Lbrack
+				default:
+					return true
+				}
+				var buf bytes.Buffer
+				printer.Fprint(&buf, w.Fset, n)
+				s := strings.Join(strings.Fields(buf.String()), " ")
+				if len(s) > 90 {
+					s = s[:87] + "..."
+				}
+				counts[s]++
+				e.text[pos] = s
+				e.textSeq[pos] = counts[s]
+				return true
+			})
+		}
+	}
 }
 
 // ---- atoms and terms ----------------------------------------------------------------------------
@@ -389,6 +399,10 @@ func (e *lbEngine) lenLin(in *lbInst, v ssa.Value) lin {
 		}
 	case *ssa.ChangeType:
 		return e.lenLin(in, x.X)
+	case *ssa.MakeSlice:
+		if l, ok := e.linear(in, x.Len); ok {
+			return l
+		}
 	case *ssa.BinOp:
 		if x.Op == token.ADD {
 			return e.lenLin(in, x.X).add(e.lenLin(in, x.Y))
@@ -396,7 +410,40 @@ func (e *lbEngine) lenLin(in *lbInst, v ssa.Value) lin {
 	case *ssa.Extract:
 		return linAtom(e.own(e.at.get(lenKey{tupleKey{x.Tuple, x.Index}}, "len("+e.valName(x)+")", true), x))
 	}
+	if e.astScope {
+		if k, name, ok := fieldPathOf(v); ok {
+			return linAtom(e.at.get(lenKey{k}, "len("+name+")", true)) // no owner: a later load of the same path finds it again
+		}
+	}
 	return linAtom(e.lenAtom(v))
+}
+
+type fieldPathKey struct {
+	root ssa.Value
+	path string
+}
+
+// fieldPathOf: v is a load x.F.G of a field path rooted at a parameter or another value; in code that does not write
+// the structures it reads, two such loads are the same value.
+func fieldPathOf(v ssa.Value) (fieldPathKey, string, bool) {
+	path := ""
+	cur := v
+	for {
+		u, ok := cur.(*ssa.UnOp)
+		if !ok || u.Op != token.MUL {
+			break
+		}
+		fa, ok := u.X.(*ssa.FieldAddr)
+		if !ok {
+			break
+		}
+		path = "." + fieldAddrName(fa) + path
+		cur = fa.X
+	}
+	if path == "" {
+		return fieldPathKey{}, "", false
+	}
+	return fieldPathKey{cur, path}, cur.Name() + path, true
 }
 
 // ---- obligations --------------------------------------------------------------------------------
@@ -1382,6 +1429,15 @@ func (e *lbEngine) refine(in *lbInst, st *lstate, cond ssa.Value, pol bool) *lst
 				return st
 			}
 		case isStringType(x.X.Type()):
+			if op == token.NEQ {
+				// s != "": at least one byte
+				for _, side := range [][2]ssa.Value{{x.X, x.Y}, {x.Y, x.X}} {
+					if c, ok := constString(side[1]); ok && c == "" {
+						return st.ge(e.lenLin(in, side[0]), linConst(1))
+					}
+				}
+				return st
+			}
 			if op != token.EQL {
 				return st
 			}
@@ -1900,6 +1956,10 @@ func (e *lbEngine) execCall(in *lbInst, st *lstate, call *ssa.Call) *lstate {
 
 func (e *lbEngine) inScope(fn *ssa.Function) bool {
 	file := e.w.fileOf(fn.Pos())
+	if e.astScope {
+		// C04/R3: the consumers of package ast only (the quoting helpers they call are C15/R5's, with their documented domain)
+		return fnPkgPath(fn) == modRoot+"/ast" && !strings.HasSuffix(file, "options.go")
+	}
 	switch {
 	case strings.HasSuffix(file, "lexer.go") && fnPkgPath(fn) == modRoot:
 		return true
